@@ -78,6 +78,9 @@ func NewSchema(config SchemaConfig) (Schema, error) {
 	}
 	// Ensure directive definitions are error-free
 	for _, dir := range schema.directives {
+		if err = invariant(dir != nil, "Schema directives must be Directives but got: nil."); err != nil {
+			return schema, err
+		}
 		if dir.err != nil {
 			return schema, dir.err
 		}
